@@ -10,17 +10,28 @@
    [walk_matches_spec] compares the two (as sets per struct type) and is evaluated on the tables of
    this run by [C11_walks].
 
-   Scope.  Stated on the model value: "serialising shows no bto or bcc" is [no_private] of the value
-   after Clean (both encoders leave out an empty bto/bcc; that step belongs to C01/C02/C03).
+   Scope.  On the model value: "serialising shows no bto or bcc" is [no_private] of the value after
+   Clean.  On the serialised bytes (JSON encoder, last section of this file): the object written for the
+   cleaned value and for every object embedded by pointer along the walk, at any depth and through
+   lists, has no member named bto or bcc (C11_bytes_generic / C11_bytes / C11_bytes_top), for every
+   write table satisfying [grammar_tables_ok] and [private_tables_ok].  The gob encoder side is not
+   covered here (C03).
    [x.F = x.F[:0]] keeps a nil list nil and makes any other list empty.  Objects embedded BY VALUE are
    not reached by the code (no pointer receiver, no HasRecipients) and are outside the property.
    One deviation from "all other properties are left exactly as they were" is modelled and reported,
    not hidden: ItemCollection.Clean stores CleanRecipients' result, so a list entry that IsNil (a typed
    nil pointer, an empty or "-" IRI) is read back as the nil item ([strip_entry]).
 
-   Full statement of the DESIGN's C11_hidden (kept for the integrator; needs the JSON encoder model):
-     forall x b, enc (strip x) = Ok b -> no_private_on_walk_json b. *)
-From AP.Model Require Import Prelude Vocab Pred Clean CleanGen.
+   The DESIGN's C11_hidden, forall x b, enc (strip x) = Ok b -> no_private_on_walk_json b, is rendered as
+   C11_bytes: "on the walk" is the relation [on_walk] on the cleaned VALUE (a JSON text does not say
+   which of its objects were embedded by pointer, nor whether an "object" member belongs to an Activity
+   or to a Relationship, so the positions are named on the value side) and the statement about each
+   position is about the JSON object the encoder writes for it. *)
+From AP.Model Require Import Prelude Vocab Pred Json JsonLeaf JsonTables JsonEnc JsonCheck JsonGrammarCheck JsonCodec.
+From AP.Spec Require Import Rfc8259.
+From AP.Proofs Require Import CleanBytesP JsonGenGP.
+From AP.Gen Require Import JsonW.
+From AP.Model Require Import Clean CleanGen.
 From AP.Proofs Require Import CleanP CleanGenP.
 
 (* the generated walks are the specified walks *)
@@ -87,3 +98,49 @@ Example C11_deep_example :
      | _, _ => False
      end).
 Proof. exact deep_example. Qed.
+
+(* ================================================================ on the serialised bytes (JSON) *)
+
+(* table obligation, evaluated on the write tables of this run: the only entry of any write table that
+   can write a member named bto (bcc) is the item-collection writer applied to the field Bto (BCC) *)
+Theorem C11_private_tables : private_tables_ok jw_tables = true.
+Proof. exact gen_private_tables. Qed.
+
+(* [no_private_members b]: b is empty, or a JSON object (RFC 8259 grammar, pairwise different member
+   names) none of whose members is named bto or bcc.
+   Generic over the write tables.  For every value x (numbers below 10^40 - only needed to speak of
+   "the JSON object"), for every struct
+   z embedded by pointer that the property's walk reaches from Clean(x) - x itself included, at any
+   depth, through lists - whatever call of the encoder writes z (any fuel): *)
+Theorem C11_bytes_generic : forall T, grammar_tables_ok T = true -> private_tables_ok T = true ->
+  forall x z, nums_in_range x = true -> on_walk (strip x) z ->
+  forall k fs, z = IObj true k fs -> is_link_kind k = false ->
+  forall fuel b, enc_item T fuel z = Some b -> no_private_members b.
+Proof. exact clean_bytes_generic. Qed.
+
+(* with the generated walks and the generated write tables *)
+Theorem C11_bytes : forall x a z,
+  clean_m x = Ok a -> nums_in_range x = true -> on_walk a z ->
+  forall k fs, z = IObj true k fs -> is_link_kind k = false ->
+  forall fuel b, enc_item jw_tables fuel z = Some b -> no_private_members b.
+Proof. exact clean_bytes_m. Qed.
+
+(* the value itself, through the encoder that is compared byte for byte with MarshalJSON *)
+Theorem C11_bytes_top : forall k fs a b,
+  clean_m (IObj true k fs) = Ok a -> is_link_kind k = false ->
+  nums_in_range (IObj true k fs) = true ->
+  enc a = Some b -> no_private_members b.
+Proof. exact clean_bytes_top. Qed.
+
+(* Clean does not leave the domain of these theorems *)
+Theorem C11_clean_keeps_domain : forall P x, item_all P x = true -> item_all P (strip x) = true.
+Proof. exact item_all_strip. Qed.
+
+(* non-vacuity: the deep example; before Clean the output shows bto, after Clean the top object does not,
+   and the walk reaches the Like activity three levels down *)
+Example C11_bytes_example :
+  nums_in_range c11_deep = true /\
+  exists a b, clean_m c11_deep = Ok a /\ enc a = Some b /\ no_private_members b /\ b <> [] /\
+    exists b0, enc c11_deep = Some b0 /\ Bytes.bytes_contains (B """bto"":") b0 = true /\
+    exists z, on_walk a z /\ z <> a /\ match z with IObj true KActivity _ => True | _ => False end.
+Proof. exact clean_bytes_example. Qed.
